@@ -12,6 +12,7 @@ package main
 
 import (
 	"context"
+	"encoding/binary"
 	"encoding/json"
 	"flag"
 	"fmt"
@@ -21,6 +22,7 @@ import (
 	"strconv"
 	"strings"
 	"sync"
+	"sync/atomic"
 	"time"
 
 	"tunnox-core/internal/app/server"
@@ -33,6 +35,7 @@ import (
 	"tunnox-core/internal/core/storage"
 	"tunnox-core/internal/core/types"
 	"tunnox-core/internal/packet"
+	"tunnox-core/internal/protocol/adapter"
 	"tunnox-core/internal/protocol/session"
 	"tunnox-core/internal/security"
 	vc "tunnox-core/internal/verifharness/common"
@@ -59,6 +62,7 @@ func (c *fconn) SetReadDeadline(t time.Time) error  { return nil }
 func (c *fconn) SetWriteDeadline(t time.Time) error { return nil }
 
 type stack struct {
+	ctx    context.Context
 	cancel context.CancelFunc
 	sm     *session.SessionManager
 	seq    int
@@ -66,7 +70,7 @@ type stack struct {
 
 func newStack() *stack {
 	ctx, cancel := context.WithCancel(context.Background())
-	st := &stack{cancel: cancel}
+	st := &stack{ctx: ctx, cancel: cancel}
 	stor := storage.NewMemoryStorage(ctx)
 	repo := repos.NewRepository(stor)
 	cc := factories.NewBuiltinCloudControlWithRepo(ctx, managers.DefaultConfig(), stor, repo)
@@ -129,9 +133,181 @@ func (st *stack) dispatch(pkt *packet.TransferPacket) (obs string) {
 	return obs
 }
 
+// ---- the per-connection read loop (adapter.BaseAdapter.handleConnection) fed with a finite byte stream
+//
+//	loop <hex stream> ch <k> <size>*k
+//	## loop pk <packets handed to HandlePacket> ret <b> closed <b> conns <sessions left over>
+
+type lconn struct {
+	fconn
+	cr     *vc.ChunkReader
+	closed bool
+}
+
+func (c *lconn) Read(p []byte) (int, error) {
+	c.mu.Lock()
+	defer c.mu.Unlock()
+	if c.closed {
+		return 0, io.ErrClosedPipe
+	}
+	return c.cr.Read(p)
+}
+func (c *lconn) Close() error {
+	c.mu.Lock()
+	c.closed = true
+	c.mu.Unlock()
+	return nil
+}
+
+// countSession counts the packets the read loop hands to the dispatcher.
+type countSession struct {
+	types.Session
+	n atomic.Int64
+}
+
+func (s *countSession) HandlePacket(p *types.StreamPacket) error {
+	s.n.Add(1)
+	return s.Session.HandlePacket(p)
+}
+
+func (st *stack) runLoop(data []byte, sizes []int) string {
+	st.seq++
+	c := &lconn{cr: vc.NewChunkReader(data, sizes, false)}
+	c.addr = &net.TCPAddr{IP: net.IPv4(10, 8, byte(st.seq>>8), byte(st.seq)), Port: 30000 + st.seq%20000}
+	before := len(st.sm.ListConnections())
+	cs := &countSession{Session: st.sm}
+	done := make(chan string, 1)
+	go func() {
+		defer func() {
+			if r := recover(); r != nil {
+				done <- "panic " + strings.ReplaceAll(fmt.Sprint(r), " ", "_")
+			}
+		}()
+		adapter.VerifHandleConnection(st.ctx, cs, c)
+		done <- "ret"
+	}()
+	select {
+	case o := <-done:
+		if o != "ret" {
+			return o
+		}
+	case <-time.After(10 * time.Second):
+		return "timeout"
+	}
+	c.mu.Lock()
+	closed := c.closed
+	c.mu.Unlock()
+	b := "0"
+	if closed {
+		b = "1"
+	}
+	return fmt.Sprintf("loop pk %d ret 1 closed %s conns %d", cs.n.Load(), b, len(st.sm.ListConnections())-before)
+}
+
+func execLoop(st *stack, out *vc.Out, caseStr string) {
+	toks := strings.Fields(caseStr)
+	data := vc.UnHex(toks[1])
+	var sizes []int
+	if len(toks) > 3 {
+		for _, t := range toks[4:] {
+			n, _ := strconv.Atoi(t)
+			sizes = append(sizes, n)
+		}
+	}
+	obs := st.runLoop(data, sizes)
+	key := caseStr
+	if len(key) > 160 {
+		key = key[:160] + strconv.Itoa(len(caseStr))
+	}
+	out.Case(caseStr, obs, key)
+	out.Count("loop:" + strings.Fields(obs)[0])
+}
+
+func fmtLoop(data []byte, sizes []int) string {
+	var sb strings.Builder
+	fmt.Fprintf(&sb, "loop %s ch %d", vc.Hex(data), len(sizes))
+	for _, n := range sizes {
+		fmt.Fprintf(&sb, " %d", n)
+	}
+	return sb.String()
+}
+
+func frame(t int, body []byte) []byte {
+	b := []byte{byte(t), 0, 0, 0, 0}
+	binary.BigEndian.PutUint32(b[1:], uint32(len(body)))
+	return append(b, body...)
+}
+
+func genLoop(st *stack, out *vc.Out, r *vc.Rand, thorough bool) {
+	sizesOf := func(n int) []int {
+		var s []int
+		for n > 0 {
+			k := 1 + r.Intn(n)
+			if r.Intn(3) == 0 {
+				k = 1
+			}
+			s = append(s, k)
+			n -= k
+		}
+		return s
+	}
+	valid := func() []byte {
+		var s []byte
+		for i, np := 0, 1+r.Intn(4); i < np; i++ {
+			switch r.Intn(6) {
+			case 0:
+				s = append(s, 0x03)
+			case 1:
+				s = append(s, frame(0x01, []byte(vc.Pick(r, handshakeSamples)))...)
+			case 2:
+				s = append(s, frame(0x20, []byte(vc.Pick(r, tunnelOpenSamples)))...)
+			case 3:
+				cp, _ := json.Marshal(&packet.CommandPacket{CommandType: packet.CommandType(r.Intn(130)), CommandId: "c", CommandBody: vc.Pick(r, cmdBodySamples)})
+				s = append(s, frame(0x10+r.Intn(2), cp)...)
+			case 4:
+				s = append(s, frame(r.Intn(256), r.Bytes(r.Intn(30)))...)
+			default:
+				s = append(s, frame(0x22, r.Bytes(r.Intn(100)))...)
+			}
+		}
+		return s
+	}
+	// every type byte alone and with a small body
+	for t := 0; t < 256; t++ {
+		execLoop(st, out, fmtLoop([]byte{byte(t)}, nil))
+		execLoop(st, out, fmtLoop(frame(t, []byte("{}")), []int{1, 2}))
+	}
+	rounds := 400
+	if thorough {
+		rounds = 8000
+	}
+	for i := 0; i < rounds; i++ {
+		s := valid()
+		switch r.Intn(4) {
+		case 0: // truncated
+			s = s[:r.Intn(len(s)+1)]
+		case 1: // mutated
+			for m, k := 0, 1+r.Intn(3); m < k && len(s) > 0; m++ {
+				s[r.Intn(len(s))] = byte(r.Uint64())
+			}
+		case 2: // junk
+			s = r.Bytes(r.Intn(60))
+		}
+		execLoop(st, out, fmtLoop(s, sizesOf(len(s))))
+		if i%300 == 299 {
+			st.cancel()
+			*st = *newStack()
+		}
+	}
+}
+
 func execCase(st *stack, out *vc.Out, caseStr string) {
 	fmt.Fprintln(os.Stderr, "BEGIN", caseStr[:min(len(caseStr), 300)])
 	toks := strings.Fields(caseStr)
+	if toks[0] == "loop" {
+		execLoop(st, out, caseStr)
+		return
+	}
 	ty, _ := strconv.Atoi(toks[1])
 	pkt := &packet.TransferPacket{PacketType: packet.Type(ty)}
 	key := ""
@@ -294,13 +470,14 @@ func main() {
 			if i := strings.Index(line, " ## "); i >= 0 {
 				line = line[:i]
 			}
-			if strings.HasPrefix(line, "disp ") {
+			if strings.HasPrefix(line, "disp ") || strings.HasPrefix(line, "loop ") {
 				execCase(st, out, line)
 			}
 		}
 	}
 	if !*noGen {
 		gen(st, out, vc.NewRand(*seed), *tier == "thorough")
+		genLoop(st, out, vc.NewRand(*seed+31), *tier == "thorough")
 	}
 	out.Finish(*stats, nil)
 }
